@@ -5,10 +5,11 @@
   transplant theorems under `Wire.decodeHeader … = .ok …`, i.e. for
   ARRAY-shaped headers read by the spec-shaped reader (DESIGN §12: "C17's
   transplant theorems cover array-shaped headers only").  Here both are stated
-  for what the byte-level front end (`Model/Front.lean`) makes of ANY byte
-  string — `Wire`'s typed view or go-codec's typed decode (`Model/Codec.lean`):
-  a header given as a MAP keyed by codec names, as nil, with fields in lenient
-  encodings (byte strings as arrays of integers, wide integers, …) included.
+  for what the byte-level front end (`Model/Front.lean`) makes of every byte
+  string it reads — go-codec's typed decode (`Model/Codec.lean`, the primary
+  reader): a header given as a MAP keyed by codec names, as nil, with fields in
+  lenient encodings (byte strings as arrays of integers, wide integers, …)
+  included; `Wire`'s typed view only where `Codec` says unmodelled.
 
   * gates: whatever the bytes, a receiver releases something or accepts only if
     the header it decoded names the saltpack format, an admitted version and its
@@ -18,10 +19,15 @@
   * transplants: header bytes `hb` written canonically by a sender of ANY mode
     (`CanonHeaderBytes hb m ver`, true of all four model senders:
     `C17_honest_header_canonical`) decode to mode `m`, version `ver` under BOTH
-    readers and into BOTH header structs (`C17_front_header_tag`); hence a
-    receiver of another mode / not admitting `ver` that released or accepted
-    anything on any byte string read DIFFERENT header bytes, with a different
-    header hash or an explicit hash collision.
+    readers and into BOTH header structs (`C17_front_header_tag`); hence
+    (a) a receiver of another mode / not admitting `ver` that released or accepted
+    anything on any byte string read DIFFERENT header bytes
+    (`C17_*_no_transplant_bytes`; with `ne_hash_or_collision`: a different header
+    hash, or the two header byte strings are an explicit collision of the hash), and
+    (b) behind these header bytes such a receiver accepts NOTHING, whatever packets
+    follow — packets that were accepted under their own header included: exact
+    refusal class, nothing released, no key object touched
+    (`C17_*_foreign_header_refused_bytes`).
 
   Statements only; proofs in Saltpack/Proofs/CodecBytesGate.lean.
 -/
@@ -58,13 +64,13 @@ theorem C17_detached_gate_bytes (P : Prims) (valid : Validator) (kr : Keyring) (
       h.formatName = Gen.c_sp_FormatName ∧ valid h.version = true ∧ h.typ = mtDetached :=
   detached_gate_bytes P valid kr sigMsg msg k hopen
 
-/-- `FrontEncHeader` / `FrontSigHeader`, spelled out: the typed view of the
-    generic parse, or go-codec's typed decode of the same bytes -/
+/-- `FrontEncHeader` / `FrontSigHeader`, spelled out: go-codec's typed decode of
+    the header bytes, or (the fallback) the typed view of the generic parse -/
 theorem C17_front_header_def (hb : Bytes) :
     (∀ h : EncHeader, FrontEncHeader hb h ↔
-      (Wire.decodeHeader viewEncHeader hb = .ok (.ok hb h) ∨ ∃ r, Codec.decEncHeader hb = .ok (h, r))) ∧
+      ((∃ r, Codec.decEncHeader hb = .ok (h, r)) ∨ Wire.decodeHeader viewEncHeader hb = .ok (.ok hb h))) ∧
     (∀ h : SigHeader, FrontSigHeader hb h ↔
-      (Wire.decodeHeader viewSigHeader hb = .ok (.ok hb h) ∨ ∃ r, Codec.decSigHeader hb = .ok (h, r))) :=
+      ((∃ r, Codec.decSigHeader hb = .ok (h, r)) ∨ Wire.decodeHeader viewSigHeader hb = .ok (.ok hb h))) :=
   ⟨fun _ => Iff.rfl, fun _ => Iff.rfl⟩
 
 /-! ## refusals: exact error class, nothing released, no key object touched -/
@@ -194,13 +200,19 @@ theorem C17_front_header_tag (hb : Bytes) (m : Int) (ver : Version) (hc : CanonH
   ⟨canonHeaderBytes_tag hc, fun h hf => frontEncHeader_tag hb m ver hc h hf,
    fun h hf => frontSigHeader_tag hb m ver hc h hf⟩
 
+/-- **No transplant into a decryptor.**  `hb` = canonical header bytes announcing
+    mode `m`, version `ver` with `m` not encryption or `ver` refused.  A decryptor
+    that released anything or ended cleanly on ANY byte string `msg'` read header
+    bytes `hb'` that are not `hb`.  (That is the whole content — the former second
+    conjunct "different hash or collision" was excluded middle; it follows for any
+    two different byte strings, `ne_hash_or_collision`.) -/
 theorem C17_decrypt_no_transplant_bytes (P : Prims) (valid : Validator) (kr : Keyring)
     (hb : Bytes) (m : Int) (ver : Version) (hhon : CanonHeaderBytes hb m ver)
     (msg' hb' : Bytes) (h' : EncHeader) (ps : PStream EncBlock)
     (hread : Front.readEnc msg' = .ok (.ok hb' h', ps)) (r : Decrypt.Result)
     (hopen : Decrypt.openBytes P valid kr msg' = .ok r) (hacc : r.released ≠ [] ∨ r.err = none)
     (hother : m ≠ mtEncryption ∨ valid ver = false) :
-    hb' ≠ hb ∧ (P.hash hb' ≠ P.hash hb ∨ (hb' ≠ hb ∧ P.hash hb' = P.hash hb)) :=
+    hb' ≠ hb :=
   decrypt_no_transplant_bytes P valid kr hb m ver hhon msg' hb' h' ps hread r hopen hacc hother
 
 theorem C17_signcrypt_no_transplant_bytes (P : Prims) (kr : Keyring) (res : Signcrypt.Resolver)
@@ -209,7 +221,7 @@ theorem C17_signcrypt_no_transplant_bytes (P : Prims) (kr : Keyring) (res : Sign
     (hread : Front.readSigncrypt msg' = .ok (.ok hb' h', ps)) (r : Signcrypt.Result)
     (hopen : Signcrypt.openBytes P kr res msg' = .ok r) (hacc : r.released ≠ [] ∨ r.err = none)
     (hother : m ≠ mtSigncryption ∨ ver.major ≠ 2) :
-    hb' ≠ hb ∧ (P.hash hb' ≠ P.hash hb ∨ (hb' ≠ hb ∧ P.hash hb' = P.hash hb)) :=
+    hb' ≠ hb :=
   signcrypt_no_transplant_bytes P kr res hb m ver hhon msg' hb' h' ps hread r hopen hacc hother
 
 theorem C17_verify_no_transplant_bytes (P : Prims) (valid : Validator) (kr : Keyring)
@@ -218,7 +230,7 @@ theorem C17_verify_no_transplant_bytes (P : Prims) (valid : Validator) (kr : Key
     (hread : Front.readSig msg' = .ok (.ok hb' h', ps)) (r : Sign.Result)
     (hopen : Sign.verifyBytes P valid kr msg' = .ok r) (hacc : r.released ≠ [] ∨ r.err = none)
     (hother : m ≠ mtAttached ∨ valid ver = false) :
-    hb' ≠ hb ∧ (P.hash hb' ≠ P.hash hb ∨ (hb' ≠ hb ∧ P.hash hb' = P.hash hb)) :=
+    hb' ≠ hb :=
   verify_no_transplant_bytes P valid kr hb m ver hhon msg' hb' h' ps hread r hopen hacc hother
 
 theorem C17_detached_no_transplant_bytes (P : Prims) (valid : Validator) (kr : Keyring)
@@ -227,8 +239,58 @@ theorem C17_detached_no_transplant_bytes (P : Prims) (valid : Validator) (kr : K
     (hread : Front.readDetached sigMsg' = .ok (.ok hb' h', sr)) (msg k : Bytes)
     (hopen : Sign.verifyDetachedBytes P valid kr sigMsg' msg = .ok (.ok k))
     (hother : m ≠ mtDetached ∨ valid ver = false) :
-    hb' ≠ hb ∧ (P.hash hb' ≠ P.hash hb ∨ (hb' ≠ hb ∧ P.hash hb' = P.hash hb)) :=
+    hb' ≠ hb :=
   detached_no_transplant_bytes P valid kr hb m ver hhon sigMsg' hb' h' sr hread msg k hopen hother
+
+/-! ### … and behind a foreign header nothing is accepted
+
+  The converse direction, with the exact outcome: the front end read `msg'` and its
+  header bytes ARE canonical header bytes of another mode / of a version this
+  receiver refuses.  Then — whatever packets follow in `msg'`, in particular packets
+  that a receiver of the right mode accepted behind this very header — the run is
+  refused with `ErrNotASaltpackMessage`, `ErrWrongMessageType` or `ErrBadVersion`,
+  releases nothing and touches no key object (`calls = []`). -/
+
+theorem C17_decrypt_foreign_header_refused_bytes (P : Prims) (valid : Validator) (kr : Keyring)
+    (hb : Bytes) (m : Int) (ver : Version) (hhon : CanonHeaderBytes hb m ver)
+    (msg' : Bytes) (h' : EncHeader) (ps : PStream EncBlock)
+    (hread : Front.readEnc msg' = .ok (.ok hb h', ps)) (hother : m ≠ mtEncryption ∨ valid ver = false) :
+    ∃ e, Decrypt.openBytes P valid kr msg' = .ok ⟨none, [], some e, []⟩ ∧
+      (e = .notASaltpackMessage ∨ e = .wrongMessageType ∨ e = .badVersion) :=
+  decrypt_foreign_header_refused P valid kr hb m ver hhon msg' h' ps hread hother
+
+theorem C17_signcrypt_foreign_header_refused_bytes (P : Prims) (kr : Keyring) (res : Signcrypt.Resolver)
+    (hb : Bytes) (m : Int) (ver : Version) (hhon : CanonHeaderBytes hb m ver)
+    (msg' : Bytes) (h' : EncHeader) (ps : PStream SigncryptBlock)
+    (hread : Front.readSigncrypt msg' = .ok (.ok hb h', ps)) (hother : m ≠ mtSigncryption ∨ ver.major ≠ 2) :
+    ∃ e, Signcrypt.openBytes P kr res msg' = .ok ⟨none, [], some e, []⟩ ∧
+      (e = .notASaltpackMessage ∨ e = .wrongMessageType ∨ e = .badVersion) :=
+  signcrypt_foreign_header_refused P kr res hb m ver hhon msg' h' ps hread hother
+
+theorem C17_verify_foreign_header_refused_bytes (P : Prims) (valid : Validator) (kr : Keyring)
+    (hb : Bytes) (m : Int) (ver : Version) (hhon : CanonHeaderBytes hb m ver)
+    (msg' : Bytes) (h' : SigHeader) (ps : PStream SigBlock)
+    (hread : Front.readSig msg' = .ok (.ok hb h', ps)) (hother : m ≠ mtAttached ∨ valid ver = false) :
+    ∃ e, Sign.verifyBytes P valid kr msg' = .ok ⟨none, [], some e⟩ ∧
+      (e = .notASaltpackMessage ∨ e = .wrongMessageType ∨ e = .badVersion) :=
+  verify_foreign_header_refused P valid kr hb m ver hhon msg' h' ps hread hother
+
+theorem C17_detached_foreign_header_refused_bytes (P : Prims) (valid : Validator) (kr : Keyring)
+    (hb : Bytes) (m : Int) (ver : Version) (hhon : CanonHeaderBytes hb m ver)
+    (sigMsg' : Bytes) (h' : SigHeader) (sr : Sign.SigRead)
+    (hread : Front.readDetached sigMsg' = .ok (.ok hb h', sr)) (msg : Bytes)
+    (hother : m ≠ mtDetached ∨ valid ver = false) :
+    ∃ e, Sign.verifyDetachedBytes P valid kr sigMsg' msg = .ok (.error e) ∧
+      (e = .notASaltpackMessage ∨ e = .wrongMessageType ∨ e = .badVersion) :=
+  detached_foreign_header_refused P valid kr hb m ver hhon sigMsg' h' sr hread msg hother
+
+/-- non-vacuity: a genuine attached-signature message of the toy sender, handed to
+    the DECRYPTOR: the front end reads it (header bytes = the signer's canonical
+    header), and the run is refused as a message of the wrong type, no key touched -/
+example : (Decrypt.openBytes Toy.prims knownMajor ⟨fun _ => (-1, none), fun _ => none, [], fun _ => none, fun _ => none⟩
+      (headerPacket (Msgpack.encode (Sign.header v2 [1] mtAttached [2]).toVal) ++
+        [0x93, 0xc3, 0xc4, 0x01, 0x09, 0xc4, 0x01, 0x41])).toOption.map
+    (fun r => (r.released, r.err, r.calls)) = some ([], some .wrongMessageType, []) := by decide +kernel
 
 /-! ## concrete hostile byte strings (kernel-evaluated)
 
